@@ -51,6 +51,12 @@ def run(runtime):
         out['own_join_after_panic'] = dict(good=j[0].endswith('join=None'), line=j[0])
     else:
         out['own_join_after_panic'] = dict(good=False, line=f"the joining task died (process exit {p.returncode}) after: {lines[-1] if lines else ''}")
+    # the spawning task waits without yielding inside hannibal::runtime::block_on (wall-clock only as an upper bound)
+    p = subprocess.run([b, 'blocking'], capture_output=True, text=True, timeout=120)
+    for line in p.stdout.splitlines():
+        m = re.match(r'^(blocking_\w+) started=(\S+) stopped=(\S+)$', line)
+        if m:
+            out[m.group(1)] = dict(good=m.group(2) == 'started' and m.group(3) == 'stopped', line=line)
     return out
 
 
